@@ -37,6 +37,7 @@ type c17Case struct {
 	Defined        bool   `json:"defined,omitempty"`                // the variable is set (possibly to the empty string) in some layer
 	NameInLaterDoc bool   `json:"name_in_later_document,omitempty"` // `name:` sits in a second `---` document of its file
 	RepeatFirst    bool   `json:"repeat_first_env_file,omitempty"`  // the .env files are given as [one, two, one]: the last mention counts
+	NoWorkDirOption bool `json:"no_working_directory_option,omitempty"` // the project directory is not given: it is the first compose file's; later files live elsewhere
 }
 
 var nameRe = regexp.MustCompile(`^[a-z0-9][a-z0-9_-]*$`)
@@ -266,6 +267,7 @@ func buildC17(dir string, explicit int, cpnSrc int, cpnValid bool, fileCfg int, 
 	cs.DotEnv1 = text(dot1)
 	cs.DotEnv2 = text(dot2)
 	cs.NameInLaterDoc = len(emptyTop) > 1 && emptyTop[1]
+	cs.NoWorkDirOption = len(emptyTop) > 3 && emptyTop[3]
 	cs.RepeatFirst = len(emptyTop) > 2 && emptyTop[2] && !refFromDot && !defaultEnv && len(dot1) > 0 && len(dot2) > 0
 	cs.reference(dot1, dot2)
 	return cs
@@ -298,6 +300,11 @@ func c17Check(c *Ctx, cs c17Case) *Failure {
 			doc += "---\nname: " + yamlDQ(n) + fmt.Sprintf("\nservices:\n  svc%d:\n    hostname: h\n", i)
 		}
 		p := filepath.Join(dir, fmt.Sprintf("compose-%d.yaml", i))
+		if cs.NoWorkDirOption && i > 0 {
+			other := filepath.Join(base, "zz-other-directory")
+			_ = os.MkdirAll(other, 0o755)
+			p = filepath.Join(other, fmt.Sprintf("compose-%d.yaml", i))
+		}
 		_ = os.WriteFile(p, []byte(doc), 0o644)
 		files = append(files, p)
 	}
@@ -352,7 +359,10 @@ func c17Check(c *Ctx, cs c17Case) *Failure {
 	if cs.ExplicitName != "" && cs.NameFirst {
 		opts = append(opts, cli.WithName(cs.ExplicitName))
 	}
-	opts = append(opts, cli.WithWorkingDirectory(dir), cli.WithEnv(explicit), cli.WithOsEnv)
+	if !cs.NoWorkDirOption {
+		opts = append(opts, cli.WithWorkingDirectory(dir))
+	}
+	opts = append(opts, cli.WithEnv(explicit), cli.WithOsEnv)
 	if cs.DefaultEnv || len(envFiles) > 0 {
 		opts = append(opts, cli.WithEnvFiles(envFiles...), cli.WithDotEnv)
 	}
@@ -442,6 +452,9 @@ func TestC17(t *testing.T) {
 					}
 					for fileCfg := 0; fileCfg <= 6; fileCfg++ {
 						cases = append(cases, buildC17(dir, explicit, cpnSrc, valid, fileCfg, 0, false, cpnSrc == 3 && fileCfg%2 == 0, fileCfg%2 == 1))
+						if fileCfg >= 1 && fileCfg <= 3 {
+							cases = append(cases, buildC17(dir, explicit, cpnSrc, valid, fileCfg, 0, false, cpnSrc == 3 && fileCfg%2 == 0, fileCfg%2 == 1, false, false, false, true))
+						}
 						if fileCfg != 0 && (explicit+cpnSrc)%2 == 0 {
 							cases = append(cases, buildC17(dir, explicit, cpnSrc, valid, fileCfg, 0, false, cpnSrc == 3 && fileCfg%2 == 0, fileCfg%2 == 1, false, true))
 						}
@@ -478,6 +491,6 @@ func TestC17(t *testing.T) {
 			}
 			cpnSrc := rapid.IntRange(0, 4).Draw(t, "cpn")
 			return buildC17(dir, rapid.IntRange(0, 2).Draw(t, "explicit"), cpnSrc, rapid.Bool().Draw(t, "valid") || cpnSrc == 0 || cpnSrc == 4,
-				rapid.IntRange(0, 6).Draw(t, "files"), rapid.IntRange(0, 15).Draw(t, "mask"), rapid.Bool().Draw(t, "ref"), rapid.Bool().Draw(t, "def"), rapid.Bool().Draw(t, "first"), rapid.IntRange(0, 3).Draw(t, "emptytop") == 0, rapid.IntRange(0, 3).Draw(t, "laterdoc") == 0, rapid.IntRange(0, 2).Draw(t, "repeatfirst") == 0)
+				rapid.IntRange(0, 6).Draw(t, "files"), rapid.IntRange(0, 15).Draw(t, "mask"), rapid.Bool().Draw(t, "ref"), rapid.Bool().Draw(t, "def"), rapid.Bool().Draw(t, "first"), rapid.IntRange(0, 3).Draw(t, "emptytop") == 0, rapid.IntRange(0, 3).Draw(t, "laterdoc") == 0, rapid.IntRange(0, 2).Draw(t, "repeatfirst") == 0, rapid.IntRange(0, 2).Draw(t, "noworkdir") == 0)
 		}, Check: c17Check})
 }
